@@ -7,6 +7,6 @@ def run(tier, seed, update_ledger=False, only=None, jobs=None):
     return run_check("C12", hs, tier=tier, seed=seed, update_ledger=update_ledger, jobs=jobs,
                      unbounded_in=["all values of inputs, contexts and parameters"],
                      bounded_in={"batch size": "B = 2 (B = 1 is the same code path; elementwise kernels are covered for every B by leading-shape polymorphism)"},
-                     not_decided=["distributions / flows log_prob rows are covered by C04 / C18 row pairing", "training-mode batch statistics are outside this property"],
+                     not_decided=["training-mode batch statistics are outside this property"],
                      assumptions=["row b of every result mentions only symbols of row b of the inputs and of the context (syntactic non-interference on the symbolic execution of the real code)",
                                   "user-supplied conditioners are row-wise; the library's own networks (ResidualNet, MLP, ConvResidualNet in eval mode) are checked here"])
